@@ -2,6 +2,7 @@
 import collections
 
 from ..lib import lean, rng as rnglib
+from ..sim import transport04 as T
 from ..translate import ipmb as tr
 
 ID = 'C03'
@@ -21,6 +22,12 @@ RULE = ('transmit side: boundary + seeded request headers (6-bit netfn, 2-bit LU
         'by runt frames of 0..5 bytes (prefixes of the reply and runts whose byte sums are zero), then the intact '
         'match again, under default / all / random flags.  Transmit side: every header also through one long-lived '
         'IpmbHeaderReq object whose fields are re-assigned (same frame as from a fresh object demanded).  '
+        'Through the LAN transport (the only caller that may take a frame apart BEFORE rx_filter sees it): replies of '
+        'the specification to a Get-Device-ID-like, an HPM.1 2Ch/34h and a seeded request - plain (request not bridged) '
+        'and inside 1..3 Send Message responses (routing depth 2..4) - are handed to the real '
+        'Rmcp.send_and_receive_raw over a fake socket intact (must be returned) and with EVERY single-byte corruption '
+        '(255 x len, every wrapper byte included; thorough: more frames): the damaged frame must be rejected - no '
+        'data, no CompletionCodeError / IndexError out of it.  '
         'Distinct by (op, header, flags, bytes); non-trivial = non-empty payload / frame of >= 6 bytes.')
 ASSUMPTIONS = [
     'the arithmetic of checksum / IpmbHeaderReq.encode / IpmbHeaderRsp.decode and the checks list of rx_filter are '
@@ -34,7 +41,15 @@ ASSUMPTIONS = [
     'one process and each is compared with the model / judged by the specification on its own; a reported case '
     'carries the preceding calls (last 8 + earlier calls with the same frame bytes + its whole sequence)',
 ]
-TRUSTED = ['harness/translate/ipmb.py', 'harness/props/c03.py']
+ASSUMPTIONS += [
+    'the last clause (a reply with any single corrupted byte is rejected) is also judged where a received frame is '
+    'looked at before rx_filter: the bridging branch of Rmcp._send_and_receive (modelled by Bridge.classifyRx of '
+    'Model/Bridge.lean in two variants, as shipped / repaired; the variant the correspondence uses is probed on the real '
+    'code with the witness of transport_corruption_asShipped_counterexample; the property is judged on the real code '
+    'either way).  RMCP / session packing of the fake datagrams is not under test (authentication none); retry '
+    'accounting is C04\'s (max_retries = 0: one frame, then silence)',
+]
+TRUSTED = ['harness/translate/ipmb.py', 'harness/props/c03.py', 'harness/sim/transport04.py (fake UDP socket)']
 
 FIELDS = ('rs_sa', 'rs_lun', 'netfn', 'rq_sa', 'rq_lun', 'rq_seq', 'cmdid')
 BITS = (8, 2, 6, 8, 2, 6, 8)
@@ -530,6 +545,129 @@ def _run_encode_histories(ctx, rng, hdrs):
                         {'op': 'encode-history', 'seq': list(seq)}, expected=list(want), observed=list(got))
 
 
+# ---------------------------------------------------------------------------------------
+# the same clause through the LAN transport
+# ---------------------------------------------------------------------------------------
+
+SEND_MESSAGE = 0x34
+ROUTES = {0: None, 2: [(0x81, 0x20, 0), (0x20, 0x82, None)],
+          3: [(0x81, 0x20, 0), (0x20, 0x82, 7), (0x20, 0x72, None)],
+          4: [(0x81, 0x20, 0), (0x20, 0x82, 7), (0x20, 0x72, 2), (0x72, 0x74, None)]}
+
+
+def real_transport(tc, frame):
+    """one request through the real Rmcp, one datagram (carrying `frame`) arrives, then silence"""
+    iface = T.make_rmcp(max_retries=0, slave_address=0x81)
+    iface.next_sequence_number = tc['seq0']
+    req = {'rs_sa': tc['rs_sa'], 'netfn': tc['netfn'], 'lun': tc['lun'], 'cmd': tc['cmd'], 'payload': '',
+           'routing': [list(h) for h in ROUTES[tc['depth']]] if tc['depth'] else None}
+    r = T.run_rmcp(iface, req, [['F', lean.hexs(frame) if frame else '']])
+    return ('ok ' + lean.hexs(r['out'][1])) if r['out'][0] == 'ok' else r['out'][0]
+
+
+_tvariant = []
+
+
+def transport_variant(drv):
+    """which variant of Bridge.classifyRx the tree implements: the witness of
+    Props.C03.transport_corruption_asShipped_counterexample (payload checksum of the wrapper altered)"""
+    if not _tvariant:
+        tc = {'depth': 2, 'rs_sa': 0x82, 'netfn': 6, 'lun': 0, 'cmd': 1, 'seq0': 4}
+        inner = lean.unhex(drv.ask('mkreply 130 0 6 32 0 5 1 001234'))
+        good = lean.unhex(drv.ask('wrap %s 32,0,6,129,0,5,52,0' % lean.hexs(inner)))
+        bad = good[:-1] + bytes([(good[-1] + 1) % 256])
+        _tvariant.append('a' if real_transport(tc, bad).startswith('ok') else 'r')
+    return _tvariant[0]
+
+
+def transport_frame(drv, tc, body):
+    """the reply of the specification to the request of `tc`, inside one Send Message response per bridge"""
+    seq = (tc['seq0'] + 1) % 64
+    route = ROUTES[tc['depth']]
+    last = route[-1] if route else (0x81, tc['rs_sa'], None)
+    inner_req = (last[1], tc['lun'], tc['netfn'], last[0], 0, seq, tc['cmd'])
+    reply = drv.ask('mkreply %s %s' % (hs(inner_req), lean.hexs(body)))
+    layers = ['%d,0,6,%d,0,%d,52,0' % (h[1], h[0], seq) for h in (route or [])[:-1]]
+    return inner_req, lean.unhex(drv.ask('wrap %s %s' % (reply, ' '.join(layers))) if layers else reply)
+
+
+def judge_transport_frame(ctx, drv, tc, inner_req, frame, intact, model=None):
+    """`frame` (== `intact`, or `intact` with one byte altered) arrives as the only datagram"""
+    real = real_transport(tc, frame)
+    seq = (tc['seq0'] + 1) % 64
+    case = {'op': 'transport', 'tc': tc, 'frame': lean.hexs(frame), 'intact': lean.hexs(intact)}
+    if model is not None:
+        m = 'RetryError' if model in ('ack', 'noise') else ('ok ' + (model.split() + ['-'])[1]) if model.startswith('hit') \
+            else model[4:]
+        if m != real and not (m.startswith('py:') and real.startswith('py:')):
+            ctx.disagree('Rmcp receive', case, m, real)
+    if frame == intact:
+        nwrap = max(tc['depth'], 1) - 1          # each wrapper: 7 bytes in front, 1 checksum byte behind
+        want = 'ok ' + lean.hexs(intact[7 * nwrap + 6:len(intact) - nwrap - 1])
+        if real != want:
+            ctx.violate('C03:transport:rejects-intact-reply',
+                        'the LAN transport does not return the data of the intact reply%s' % (
+                            '' if tc['depth'] == 0 else ' wrapped in %d Send Message response(s)' % (tc['depth'] - 1)),
+                        case, expected=want, observed=real)
+            return False
+        return True
+    pos = [i for i in range(len(frame)) if frame[i] != intact[i]][0]
+    nwrap = max(tc['depth'], 1) - 1
+    where = 'wrapper' if (pos < 7 * nwrap or pos >= len(frame) - nwrap) else 'reply'
+    if real.startswith('ok'):
+        ctx.violate('C03:transport:accepts:corrupted-%s' % where,
+                    'a reply with one corrupted byte (offset %d, in the %s) is accepted by the LAN transport' % (
+                        pos, 'Send Message wrapper' if where == 'wrapper' else 'reply itself'),
+                    case, expected='rejected (RetryError after the time-out)', observed=real)
+        return False
+    if real != 'RetryError':
+        ctx.violate('C03:transport:raises:corrupted-%s' % where,
+                    'a reply with one corrupted byte (offset %d, in the %s) is not dropped: %s comes out of the frame '
+                    'whose checksum fails' % (pos, 'Send Message wrapper' if where == 'wrapper' else 'reply itself', real),
+                    case, expected='rejected (RetryError after the time-out)', observed=real)
+        return False
+    return True
+
+
+def _run_transport(ctx, drv, rng, n_extra):
+    v = transport_variant(drv)
+    ctx.extra['transport_variant'] = {'a': 'asShipped', 'r': 'repaired'}[v]
+    tcs = []
+    for depth in (0, 2, 3, 4):
+        tcs.append(({'depth': depth, 'rs_sa': 0x82, 'netfn': 6, 'lun': 0, 'cmd': 1, 'seq0': 4}, b'\x00\x12\x34'))
+    tcs.append(({'depth': 0, 'rs_sa': 0x20, 'netfn': 6, 'lun': 0, 'cmd': 1, 'seq0': 4}, b'\xc0'))
+    tcs.append(({'depth': 0, 'rs_sa': 0x72, 'netfn': 0x2c, 'lun': 0, 'cmd': 0x34, 'seq0': 62}, b'\x00\x00\x33\x00'))
+    tcs.append(({'depth': 2, 'rs_sa': 0x72, 'netfn': 0x2c, 'lun': 0, 'cmd': 0x34, 'seq0': 63}, b'\x00\x00\x33\x00'))
+    for _ in range(n_extra):
+        cmd = rng.randrange(256)
+        netfn = rng.randrange(32) * 2
+        if cmd == SEND_MESSAGE and netfn == 6:
+            netfn = 0x2c
+        tcs.append(({'depth': rng.choice((0, 2, 3, 4)), 'rs_sa': rng.choice((0x20, 0x82, 0x72)), 'netfn': netfn,
+                     'lun': rng.randrange(4), 'cmd': cmd, 'seq0': rng.randrange(64)},
+                    bytes([rng.choice((0, 0, 0xc1))]) + gen_payload(rng, rng.randrange(0, 6))))
+    for tc, body in tcs:
+        if ctx.time_left() < 25:
+            ctx.notes.append('transport corruption sweep stopped early (time budget)')
+            break
+        inner_req, frame = transport_frame(drv, tc, body)
+        seq = (tc['seq0'] + 1) % 64
+        muts = [frame]
+        for i in range(len(frame)):
+            for b in range(256):
+                if b != frame[i]:
+                    muts.append(frame[:i] + bytes([b]) + frame[i + 1:])
+        models = drv.ask_many(['cls %s %s %s %s %s' % (v, seq if tc['depth'] >= 2 else '-', hs(inner_req), DEFAULT_FLAGS,
+                                                       lean.hexs(f)) for f in muts])
+        for f, m in zip(muts, models):
+            ctx.case(('transport', repr(sorted(tc.items())), f))
+            judge_transport_frame(ctx, drv, tc, inner_req, f, frame, m)
+        ctx.count('transport:frames:depth-%d' % tc['depth'])
+        ctx.count('transport:single-byte-corruption', len(muts) - 1)
+        ctx.count('transport:wrapper-byte-corruption', 255 * 8 * (max(tc['depth'], 1) - 1))
+    ctx.sample({'op': 'transport', 'tc': tcs[1][0], 'intact': lean.hexs(transport_frame(drv, tcs[1][0], tcs[1][1])[1])})
+
+
 def run(ctx):
     drv = ctx.driver('drv_c03')
     if drv.ask('ping') != 'pong':
@@ -540,6 +678,7 @@ def run(ctx):
     _run_transmit(ctx, drv, rng, 120 if quick else 1500, lens)
     _run_encode_histories(ctx, ctx.rng('c03-encode-history'), gen_headers(ctx.rng('c03-eh'), 200 if quick else 3000))
     _run_filter_histories(ctx, drv, ctx.rng('c03-filter-history'), 60 if quick else 1200)
+    _run_transport(ctx, drv, ctx.rng('c03-transport'), 2 if quick else 60)
     _run_filter(ctx, drv, rng, n_req=40 if quick else 400, n_corrupt_frames=24 if quick else 400,
                 all_flags_for=12 if quick else 60)
 
@@ -555,6 +694,8 @@ def search(ctx):
         return
     rng = ctx.rng('c03-search')
     _run_transmit(ctx, drv, rng, 400, [0, 1, 2, 3, 7, 8, 16, 63, 64, 255])
+    if not ctx.violations:
+        _run_transport(ctx, drv, rng, 12)
     if not ctx.violations:
         _run_filter_histories(ctx, drv, rng, 200)
     if not ctx.violations:
@@ -597,6 +738,15 @@ def replay(ctx, v):
             print('  %s %s: used object %s, fresh object %s' % (dict(zip(FIELDS, h)), dx, got[1], want[1]))
             bad = got != want
         return bad
+    elif case['op'] == 'transport':
+        tc, frame, intact = case['tc'], lean.unhex(case['frame']), lean.unhex(case['intact'])
+        inner_req, _ = transport_frame(drv, tc, b'\x00')
+        print('Rmcp.send_and_receive_raw netFn %02xh cmd %02xh lun %d, %s; max_retries 0; ONE datagram arrives:' % (
+            tc['netfn'], tc['cmd'], tc['lun'], 'not bridged' if tc['depth'] == 0 else 'routing %s' % ROUTES[tc['depth']]))
+        print('  frame  %s%s' % (case['frame'], '' if frame == intact else '   (intact: %s)' % case['intact']))
+        print('  sums   %s (header, rest; both must be 0 for the frame to count)' % drv.ask('sums ' + case['frame']))
+        print('  code : %s' % real_transport(tc, frame))
+        judge_transport_frame(c2, drv, tc, inner_req, frame, intact)
     elif case['op'] == 'filter':
         req, fl, frame = tuple(case['req']), case['flags'], lean.unhex(case['frame'])
         header = _mk_header(req) if case.get('same_header') else None
